@@ -201,6 +201,17 @@ type Sim struct {
 	// hooks
 	OnHandlerStart func(r *CallRec)
 	barrier        map[int]chan struct{} // handler op 'B': closed once that handler has seen its context end
+	gate           chan struct{}         // handler ops 'G' (wait) and 'g' (open)
+	gateOnce       sync.Once
+}
+
+func (s *Sim) gateCh() chan struct{} {
+	histMu.Lock()
+	defer histMu.Unlock()
+	if s.gate == nil {
+		s.gate = make(chan struct{})
+	}
+	return s.gate
 }
 
 func NewSim(e *Env) *Sim {
@@ -513,6 +524,13 @@ func (s *Sim) hop(r *CallRec, ctx context.Context, ss grpc.ServerStream, op Op) 
 		for _, c := range sib {
 			<-c
 		}
+	case 'G':
+		// wait until another call's handler opens the gate
+		e.Pt("h.gate.wait")
+		<-s.gateCh()
+	case 'g':
+		e.Pt("h.gate.open")
+		s.gateOnce.Do(func() { close(s.gateCh()) })
 	case 'z':
 		e.Pt("h.sleep")
 		time.Sleep(op.D)
